@@ -64,6 +64,23 @@ func TestVerifC20Config(t *testing.T) {
 	if cfg, err := NewConfig(""); err != nil || cfg == nil || cfg.NamingFormat != DefaultFormat {
 		m.Violate("C20:config-default", "case=-1;\"\"", "NewConfig(\"\") = %+v, %v", cfg, err)
 	}
+	// results are independent: changing a returned Config must not change what a later call returns
+	for i, in := range []string{"", "go_designer", ""} {
+		a, _ := NewConfig(in)
+		want := in
+		if in == "" {
+			want = DefaultFormat
+		}
+		if a == nil || a.NamingFormat != want {
+			m.Violate("C20:config-depends-on-earlier-call", fmt.Sprintf("case=%d;%q", n+valid+i, in), "NewConfig(%q) returned %+v after an earlier result was modified, want format %q", in, a, want)
+			continue
+		}
+		a.NamingFormat = "Mutated_By_Caller"
+		b, _ := NewConfig(in)
+		if b == nil || b.NamingFormat != want {
+			m.Violate("C20:config-depends-on-earlier-call", fmt.Sprintf("case=%d;%q", n+valid+i, in), "NewConfig(%q) returned %+v after the previous result's field was changed by its owner, want format %q", in, b, want)
+		}
+	}
 	m.Count("valid_templates_accepted", int64(valid))
 	m.Sample(map[string]any{"cases": n, "valid_templates": valid})
 }
